@@ -56,7 +56,7 @@ theorem quote_strip (bs sc k : Nat) (c : Char) (hc : c ≠ ' ' ∧ c ≠ '\t') (
 `blkIndent` and `level` it was given (so the container's own restore code sees what it saved) -/
 theorem nested_loop_frame (P : BState → Nat → Prop) (hP : FrameClosed P) (rules : List BRule) (hok : ∀ r ∈ rules, RuleOK P r)
     (hlast : ∃ r ∈ rules, AlwaysMatches P r)
-    (maxNesting : Int) (s : BState) (startLine endLine : Nat) (hlen : s.lines.length = s.lineMax + 1)
+    (maxNesting : Int) (s : BState) (startLine endLine : Nat) (hlen : s.lineMax + 1 ≤ s.lines.length)
     (hend : endLine ≤ s.lineMax) (hPs : P s endLine) :
     ∃ s', blockTokenize rules maxNesting s startLine endLine = .ok s' ∧ s.FrameEq s' :=
   C01.block_tokenize_total P hP rules hok hlast maxNesting s startLine endLine hlen hend hPs
